@@ -69,7 +69,7 @@ fn when_then_regex() -> &'static Pattern {
 
 fn salience_regex() -> &'static Pattern {
     SALIENCE_REGEX
-        .get_or_init(|| Pattern::new(r"salience\s+(\d+)").expect("Invalid salience regex pattern"))
+        .get_or_init(|| Pattern::new(r"salience\s+(-?\d+)").expect("Invalid salience regex pattern"))
 }
 
 fn test_condition_regex() -> &'static Pattern {
